@@ -110,4 +110,89 @@ example : ((selObs { root := c!"data", choices := [], choiceCols := [], allowDup
              (c!"select one external") (c!"towns") false).toOption.map (·.query))
     = some (some (c!"instance('towns')/root/item[a=1]")) := by decide +kernel
 
+/-! ## the whole `search()` select (monadic peeling of `selObs`: one lemma per `if … then throw` join point) -/
+
+theorem bind_ok {α β : Type} {x : Except String α} {f : α → Except String β} {o : β}
+    (h : (x >>= f) = .ok o) : ∃ a, x = .ok a ∧ f a = .ok o := by
+  cases x with
+  | error e => simp [bind, Except.bind] at h
+  | ok a => exact ⟨a, rfl, h⟩
+
+theorem guard_ok {β : Type} {c : Prop} [Decidable c] {e : String} {f : PUnit → Except String β} {o : β}
+    (h : ((if c then throw e else pure PUnit.unit : Except String PUnit) >>= f) = .ok o) : ¬ c ∧ f PUnit.unit = .ok o := by
+  by_cases hc : c
+  · simp [hc, bind, Except.bind, throw, throwThe, MonadExceptOf.throw] at h
+  · simpa [hc, bind, Except.bind, pure, Except.pure] using h
+
+theorem guard_jp {β : Type} {c : Prop} [Decidable c] {e : String} {jp : PUnit → Except String β} {o : β}
+    (h : (if c then ((throw e : Except String PUnit) >>= jp) else jp PUnit.unit) = .ok o) : ¬ c ∧ jp PUnit.unit = .ok o := by
+  by_cases hc : c
+  · simp [hc, bind, Except.bind, throw, throwThe, MonadExceptOf.throw] at h
+  · simpa [hc] using h
+
+theorem ite_neg_ok {β : Type} {c : Prop} [Decidable c] {A B : Except String β} {o : β} (hc : ¬ c)
+    (h : (if c then A else B) = .ok o) : B = .ok o := by simpa [hc] using h
+theorem ite_pos_ok {β : Type} {c : Prop} [Decidable c] {A B : Except String β} {o : β} (hc : c)
+    (h : (if c then A else B) = .ok o) : A = .ok o := by simpa [hc] using h
+
+theorem opt_match_ok {α β : Type} {x : Option α} {A : α → Except String β} {B : Except String β} {o : β}
+    (h : (match x with | some v => A v | none => B) = .ok o) :
+    (∃ v, A v = .ok o) ∨ (B = .ok o) := by
+  cases x with
+  | none => exact .inr h
+  | some v => exact .inl ⟨v, h⟩
+
+theorem ite_both {β : Type} {c : Prop} [Decidable c] {A B : Except String β} {o : β}
+    (h : (if c then A else B) = .ok o) (hA : A = .ok o → B = .ok o) : B = .ok o := by
+  by_cases hc : c
+  · exact hA (by simpa [hc] using h)
+  · simpa [hc] using h
+
+theorem inlineItems_eq (l : Str) (cs : List Choice) (b : Bool) :
+    inlineItems l cs b = some (Spec.inlineFrom (requiresItext cs) l 0 cs) := by
+  simp [inlineItems, inline_go_eq]
+
+/-- Whenever the model answers for a select whose appearance calls `search()`, the select carries no itemset and
+    no query; its in-line items are those of its **own** list (the list named in the type cell, which exists),
+    one per choice in sheet order, each as `Spec.inlineItem` says (`inline_items`). -/
+theorem search_select_inline (inp : Input) (tbl : List NameInfo) (lists : List (Str × List Choice)) (extLists : List Str)
+    (name : Str) (path : List Str) (chain : Refs.Chain) (cells : Cells) (sel ln : Str) (other : Bool) (o : SelObs)
+    (hsel : isExternalSel sel = false) (hs : isSearch cells = true)
+    (h : selObs inp tbl lists extLists name path chain cells sel ln other = .ok o) :
+    ∃ cs, lookup ln lists = some cs ∧ o.items = Spec.inlineFrom (requiresItext cs) ln 0 cs ∧
+      o.itemset = none ∧ o.query = none := by
+  unfold selObs at h
+  obtain ⟨_, h⟩ := guard_jp h
+  obtain ⟨_, h⟩ := guard_jp h
+  rcases hr : lookup (c!"randomize") (paramsOf cells) with _ | v <;> rw [hr] at h <;> obtain ⟨_, h⟩ := guard_jp h
+  all_goals
+    have h := ite_neg_ok (by simp [hsel]) h
+    obtain ⟨_, h⟩ := guard_jp h
+    have h := ite_both h (by
+      intro h
+      obtain ⟨_, h⟩ := guard_jp h
+      obtain ⟨_, h⟩ := guard_jp h
+      exact h)
+    obtain ⟨_, h⟩ := guard_jp h
+    obtain ⟨_, h⟩ := guard_jp h
+    have h := ite_pos_ok hs h
+    obtain ⟨_, h⟩ := guard_jp h
+    obtain ⟨hk, h⟩ := guard_jp h
+    rw [inlineItems_eq] at h
+    cases hl : lookup ln lists with
+    | none => simp [hl] at hk
+    | some cs =>
+      injection h with h
+      subst h
+      refine ⟨cs, rfl, ?_, rfl, rfl⟩
+      simp [hl]
+
+example : ((selObs { root := c!"data", choices := [], choiceCols := [], allowDup := none, survey := [], extHeader := [],
+                     extRows := none } []
+             [(c!"fr", [{ name := c!"a", label := .plain (c!"A"), media := false, extras := [] },
+                        { name := c!"b", label := .none, media := false, extras := [] }])] [] (c!"s") [c!"s"] []
+             [(c!"label", c!"S"), (c!"control::appearance", c!"search('fruits')")]
+             (c!"select one") (c!"fr") false).toOption.map (·.items))
+    = some [((false, c!"A"), c!"a"), ((false, []), c!"b")] := by decide +kernel
+
 end Pyxv.C09
